@@ -4,7 +4,8 @@
      e_sum_load / e_sum_bytes   the byte-level gengo.sum of Model/SumFile.v (C08): bytes.Lines, bytes.Fields, sorted keys
      e_enabled                  IsGeneratorEnabled on merge(Globals, package tags, declaration tags) of Model/Dispatch.v (C06)
      e_fmt                      still a parameter (the Go formatter stack; C01 describes it as fmt1 + settle fmt2)
-     e_order                    still a parameter (iteration order of the sync.Map of retained genfiles)
+     e_order, e_rm_rank         still parameters (iteration orders of the sync.Map of retained genfiles and of the
+                                Go map of stale files)
      e_fixed                    true: the code as it is now
 
    plus the ADAPTERS that let a second model of the same Go code be run on the same input, so that
@@ -28,15 +29,18 @@ Definition whole_enabled (G : tags) (g : bytes) (p : pkginfo) (t : tyinfo) : boo
 
 (* [fixed = false] only to replay the code before the repair of #26 (Corr/Pipe.v); the system is [whole_env] *)
 Definition whole_env_fx (fixed : bool) (fmt : bytes -> option bytes)
-  (order : pkginfo -> list (bytes * bytes) -> list (bytes * bytes)) (G : tags) : env := {|
+  (order : pkginfo -> list (bytes * bytes) -> list (bytes * bytes)) (rank : pkginfo -> bytes -> nat) (G : tags) : env := {|
   e_fmt := fmt;
   e_sum_load := SumFile.sumfile_load;
   e_sum_bytes := SumFile.sumfile_bytes;
   e_enabled := whole_enabled G;
   e_order := order;
+  e_rm_rank := rank;
   e_fixed := fixed
 |}.
+(* the system: formatter, the two map orders (retained genfiles, stale files) and the global tags are parameters *)
 Definition whole_env := whole_env_fx true.
+Definition rank0 : pkginfo -> bytes -> nat := fun _ _ => 0.     (* stale files removed in the order of p.Files() *)
 
 (* ---------- adapter 1: Model/SumCache.v on the pipeline's data ---------- *)
 
